@@ -541,7 +541,7 @@ def iso4(ctx):
 # ------------------------------------------------------------------------------------------------
 # PAST / RP
 
-@rule('PAST1', ['C04'], floor=1, template='guard-dominates-use')
+@rule('PAST1', ['C04', 'C08'], floor=1, template='guard-dominates-use')
 def past1(ctx):
     """A record is pushed into a queue only if its position is not below the next position."""
     n = 0
@@ -879,6 +879,15 @@ def ma(ctx):
                 t1 = flr.forward({('lf', dl, '1')})
                 u, a_ = agg_field_op(agg, 'memory_used_bytes'), agg_field_op(agg, 'memory_allocated_bytes')
                 okm = u is not None and a_ is not None and flr.op_tainted(u, t0) and not flr.op_tainted(u, t1) and flr.op_tainted(a_, t1) and not flr.op_tainted(a_, t0)
+                # nothing else is added to the two memory figures (they must return to the names-only baseline
+                # when every queue is empty, whatever sits in write buffers)
+                if okm:
+                    for fo in (u, a_):
+                        backf = flr.backward(set(flr.op_nodes(fo)))
+                        for c in r.calls:
+                            if c is not szc[0] and any(x in backf for x in flr.call_result_nodes(c)):
+                                okm = False
+                                extra_term = c.path
     ctx.check(okm and ok_t, 'tuple-mapping', r.span, '(used, allocated) -> memory_used_bytes, memory_allocated_bytes', 'used and allocated figures are swapped or mixed between MemQueues::size and resource_usage')
 
 
@@ -1036,6 +1045,42 @@ def past4(ctx):
                   'records can be removed (or the queue emptied) without moving start_position past the truncation point: an emptied queue would hand out already used positions')
     if n < 2:
         ctx.missing('removals', 'expected the emptying and the partial removal of record metas in truncate_head')
+    # the only way to return WITHOUT moving start_position is the `start_position > truncate position` edge:
+    # an empty queue truncated at or beyond its start still moves forward (positions truncated-to are never reused)
+    from rules_codec import expr_leaves
+    skip_edges = []
+    for bj, blk in enumerate(b.blocks):
+        if not b.live[bj] or blk['term']['k'] != 'switch':
+            continue
+        c = b.switch_cond(bj)
+        if not (c and c['kind'] == 'bool'):
+            continue
+        for o in c['origin']:
+            if not (o[0] == 'rv' and o[2]['k'] == 'binop' and o[2]['op'] in ('Lt', 'Le', 'Gt', 'Ge')):
+                continue
+            a_, b_ = o[2]['a'], o[2]['b']
+            def reads_start(op_):
+                return any(x[0] == 'place' and mem_loc(x[2]) == 'MemQueue.start_position' for x in expr_leaves(b, op_)) and not any(x[0] in ('call',) for x in expr_leaves(b, op_))
+            def plain_param(op_):
+                lv = expr_leaves(b, op_)
+                return fl.op_tainted(op_, t_par) and not any(x[0] == 'const' for x in lv) and not any(x[0] == 'place' and mem_loc(x[2]) == 'MemQueue.start_position' for x in lv)
+            op = o[2]['op']
+            if reads_start(b_) and plain_param(a_):
+                a_, b_ = b_, a_
+                op = {'Lt': 'Gt', 'Gt': 'Lt', 'Le': 'Ge', 'Ge': 'Le'}[op]
+            if not (reads_start(a_) and plain_param(b_)):
+                continue
+            e = b.bool_edges(bj)
+            if not e:
+                continue
+            if op == 'Gt':
+                skip_edges.append(e[0])
+            elif op == 'Le':
+                skip_edges.append(e[1])
+    r_ = b.reach([b.entry], avoid=moves, avoid_edges=skip_edges)
+    okq = bool(skip_edges) and not any(r in r_ for r in rets)
+    ctx.check(okq, 'no-move-only-when-behind', b.span, 'start_position stays put only on the `start_position > truncate position` edge',
+              'truncate_head can return without moving start_position although the truncation point is at or beyond it (e.g. on an empty queue): positions up to the truncation point would be handed out again')
 
 
 @rule('MA3b', ['C16'], floor=1, template='pairing')
